@@ -75,8 +75,18 @@ def _val_fn(vf, spelling):
             'skip3': lambda t: SKIP if t % 4 == 3 else t}[vf]
 
 
+INNER = ('gsum', 'gcount', 'gbsum')       # the aggregator's sub-spec is itself a Group
+
+
+def is_inner(levels):
+    return levels[-1]['op'] == 'agg' and levels[-1]['val'] in INNER
+
+
 def box_kind(levels):
+    """how items can be boxed: 'Flatten' = the list [t, t + 10], 'Merge' = the dict {t % 2: t, 'v': t}"""
     leaf = levels[-1]
+    if is_inner(levels):
+        return 'Flatten'                  # items must be lists: the inner Group iterates them
     if leaf['op'] == 'agg' and leaf['agg'] in ('Flatten', 'Merge'):
         return leaf['agg']
     return None
@@ -88,7 +98,7 @@ def build_group(levels, spelling, boxed=False):
     leaf = levels[-1]
     ub = None
     if boxed:
-        ub = (T[0], lambda b: b[0]) if leaf['agg'] == 'Flatten' else (T['v'], lambda b: b['v'])
+        ub = (T[0], lambda b: b[0]) if box_kind(levels) == 'Flatten' else (T['v'], lambda b: b['v'])
     if leaf['op'] == 'list':
         cur = [_val_fn(leaf['val'], spelling)]
     elif leaf['op'] == 'last':
@@ -97,6 +107,12 @@ def build_group(levels, spelling, boxed=False):
         a = leaf['agg']
         if a in ('First', 'Max', 'Min', 'Avg', 'Count'):
             cur = {'First': First, 'Max': Max, 'Min': Min, 'Avg': Avg, 'Count': Count}[a]()
+        elif leaf['val'] == 'gsum':
+            cur = Sum(Group(Sum()))
+        elif leaf['val'] == 'gcount':
+            cur = Flatten(Group({(T % 2 if spelling == 0 else (lambda t: t % 2)): Count()}))
+        elif leaf['val'] == 'gbsum':
+            cur = Merge(Group({(T % 2 if spelling == 0 else (lambda t: t % 2)): Sum()}))
         elif a == 'Sum':
             cur = Sum() if leaf['val'] == 'ident' and spelling == 0 else Sum(_val_fn(leaf['val'], spelling))
         elif a == 'Flatten':
@@ -128,6 +144,8 @@ def build_group(levels, spelling, boxed=False):
 class RealSpec:
     def __init__(self, levels, spelling, boxed=False):
         self.levels = levels
+        boxed = boxed or is_inner(levels)
+        self.boxed = box_kind(levels) if boxed else None
         self.g, self.objs, self.keyobjs = build_group(levels, spelling, boxed)
         # id(spec node) -> abstract value ; objects used as accumulator-tree keys -> abstract key
         self.idmap = {id(o): l for l, o in enumerate(self.objs, 1) if levels[l - 1]['op'] in ('dict', 'list')}
@@ -138,6 +156,15 @@ class RealSpec:
         for l, o in enumerate(self.keyobjs, 1):
             if o is not None:
                 self.objmap[id(o)] = {'k': 'keyspec', 'n': l}
+
+    def feed(self, x):
+        """the real item handed to the library (boxed when the spec works on boxed items)"""
+        t = self.item(x)
+        if self.boxed == 'Flatten':
+            return [t, t + 10]
+        if self.boxed == 'Merge':
+            return {t % 2: t, 'v': t}
+        return t
 
     def item(self, x):
         if x['k'] == 'int':
@@ -188,8 +215,9 @@ def containers(o, acc=None):
     return acc
 
 
-def make_target(rs, items, variant, boxed):
+def make_target(rs, items, variant, boxed=None):
     """real target for an item sequence, built through codec.Heap so that it can be snapshotted"""
+    boxed = rs.boxed
     cells, refs = [], []
     for x in items:
         t = rs.item(x)
@@ -277,7 +305,8 @@ def real_specs(levels):
     if key not in _CACHE:
         bk = box_kind(levels)
         _CACHE[key] = dict(plain=[RealSpec(levels, 0), RealSpec(levels, 1)],
-                           boxed=[RealSpec(levels, 0, True), RealSpec(levels, 1, True)] if bk else [],
+                           boxed=[RealSpec(levels, 0, True), RealSpec(levels, 1, True)]
+                           if bk and not is_inner(levels) else [],
                            last={})
     return _CACHE[key]
 
@@ -340,11 +369,11 @@ def replay_flat(levels, items, ev, out):
     specs['turn'] = turn = specs.get('turn', 0) + 1
     plans = [(specs['plain'][0], 0, 'list', None),
              (specs['plain'][0], 0, 'gen', None) if turn % 2 else (specs['plain'][1], 1, 'tuple', None)]
-    bk = box_kind(levels)
-    if bk:
-        plans.append((specs['boxed'][0], 0, 'list', bk) if turn % 2 else (specs['boxed'][1], 1, 'gen', bk))
+    if specs['boxed']:
+        plans.append((specs['boxed'][0], 0, 'list', True) if turn % 2 else (specs['boxed'][1], 1, 'gen', True))
     for rs, spelling, variant, boxed in plans:
-        heap, cells, tgt = make_target(rs, items, variant, boxed)
+        boxed = rs.boxed
+        heap, cells, tgt = make_target(rs, items, variant)
         how = 'glom(%s target, g) spelling=%d%s' % (variant, spelling, ' boxed items' if boxed else '')
         res, obs = observe(rs, lambda: glom.glom(tgt, rs.g))
         ok = _check_result(out, levels, items, ev, rs, how, res, obs, heap, cells)
@@ -354,8 +383,8 @@ def replay_flat(levels, items, ev, out):
     if items:
         rs = specs['plain'][0]
         for form in (('[g]',) if turn % 2 else ('Group([g])',)):
-            h1, c1, t1 = make_target(rs, items, 'list', None)
-            h2, c2, t2 = make_target(rs, items, 'tuple', None)
+            h1, c1, t1 = make_target(rs, items, 'list')
+            h2, c2, t2 = make_target(rs, items, 'tuple')
             outer = [rs.g] if form == '[g]' else Group([rs.g])
             try:
                 both = glom.glom([t1, t2], outer)
@@ -391,7 +420,7 @@ def play_hist(rs, hist):
                 a = hist[pos[0]]
                 if a['a'] == 'feed':
                     pos[0] += 1
-                    yield rs.item(a['x'])
+                    yield rs.feed(a['x'])
                 elif a['a'] == 'new':
                     run_eval()
                 else:
@@ -487,7 +516,8 @@ def rand_spec(rng):
         levels.append({'op': 'last', 'agg': '', 'val': rng.choice(vfs)})
     else:
         a = rng.choice(AGGS)
-        vf = {'Flatten': 'pair', 'Merge': 'kv', 'Sum': rng.choice(['ident', 'inc'])}.get(a, 'ident')
+        vf = {'Flatten': rng.choice(['pair', 'pair', 'gcount']), 'Merge': rng.choice(['kv', 'kv', 'gbsum']),
+              'Sum': rng.choice(['ident', 'inc', 'gsum'])}.get(a, 'ident')
         levels.append({'op': 'agg', 'agg': a, 'val': vf})
     return levels
 
@@ -500,9 +530,9 @@ def id_safe(levels):
 
 
 def rand_hist(rng, levels, max_items, nest):
-    pool = [{'k': 'int', 'i': i} for i in range(10)]
+    pool = [{'k': 'int', 'i': i} for i in range(-3, 8)]
     if id_safe(levels) and rng.random() < 0.5:
-        pool = pool[:3] + [{'k': 'id', 'n': l} for l, lv in enumerate(levels, 1) if lv['op'] in ('dict', 'list')]
+        pool = pool[2:5] + [{'k': 'id', 'n': l} for l, lv in enumerate(levels, 1) if lv['op'] in ('dict', 'list')]
     hist = []
     if not nest:
         hist.append({'a': 'new'})
@@ -574,7 +604,7 @@ def tla_set(xs):
 
 
 def consts(**kw):
-    base = dict(MaxKeyLevels=1, MaxItems=3, MaxTotal=3, ItemMax=2, MaxEvals=1, MaxDepth=1, WithIds='FALSE',
+    base = dict(MaxKeyLevels=1, MaxItems=3, MaxTotal=3, ItemMax=2, NegItems=0, MaxEvals=1, MaxDepth=1, WithIds='FALSE',
                 KFs=tla_set(KFS), Aggs=tla_set(AGGS), VFs=tla_set(['ident', 'inc', 'x10', 'skip3']),
                 LimitNs='{99, 0, 2}', Fixes='{}', Mutant='"none"')
     base.update(kw)
@@ -583,7 +613,8 @@ def consts(**kw):
 
 UNIVERSES = {
     'quick': [
-        ('flat', consts(MaxKeyLevels=2, MaxItems=3, MaxTotal=3, ItemMax=3, KFs=tla_set(['ident', 'mod2', 'skip0']),
+        ('flat', consts(MaxKeyLevels=2, MaxItems=3, MaxTotal=3, ItemMax=2, NegItems=1, VFs=tla_set(['ident', 'inc', 'x10', 'skip3', 'inner']),
+                        KFs=tla_set(['ident', 'mod2', 'skip0']),
                         LimitNs='{99, 2}')),
         ('flat-deep', consts(MaxKeyLevels=3, MaxItems=3, MaxTotal=3, ItemMax=2, KFs=tla_set(['half', 'skipodd']),
                              Aggs=tla_set(['First', 'Avg', 'Flatten']), VFs=tla_set(['ident']), LimitNs='{99, 2}')),
@@ -595,9 +626,11 @@ UNIVERSES = {
                           VFs=tla_set(['ident']), LimitNs='{99}')),
     ],
     'thorough': [
-        ('flat', consts(MaxKeyLevels=2, MaxItems=4, MaxTotal=4, ItemMax=3, KFs=tla_set(['ident', 'mod2', 'skip0']),
+        ('flat', consts(MaxKeyLevels=2, MaxItems=4, MaxTotal=4, ItemMax=2, NegItems=1, VFs=tla_set(['ident', 'inc', 'x10', 'skip3', 'inner']),
+                        KFs=tla_set(['ident', 'mod2', 'skip0']),
                         LimitNs='{99, 3}')),
-        ('flat-long', consts(MaxKeyLevels=1, MaxItems=5, MaxTotal=5, ItemMax=3, KFs=tla_set(['mod2', 'skip0']),
+        ('flat-long', consts(MaxKeyLevels=1, MaxItems=5, MaxTotal=5, ItemMax=3, NegItems=1, VFs=tla_set(['ident', 'inc', 'x10', 'skip3', 'inner']),
+                             KFs=tla_set(['mod2', 'skip0']),
                              LimitNs='{99, 3}')),
         ('flat-deep', consts(MaxKeyLevels=3, MaxItems=4, MaxTotal=4, ItemMax=2, KFs=tla_set(['mod2', 'half', 'skipodd']),
                              Aggs=tla_set(['First', 'Avg', 'Flatten', 'Count']), VFs=tla_set(['ident']),
@@ -615,6 +648,8 @@ SMALL_SKIP = consts(MaxKeyLevels=2, MaxItems=3, MaxTotal=3, ItemMax=3, KFs=tla_s
                     Aggs=tla_set(['Count', 'First']), LimitNs='{99}')
 SMALL_IDS = consts(MaxKeyLevels=1, MaxItems=3, MaxTotal=3, ItemMax=1, WithIds='TRUE', KFs=tla_set(['ident']),
                    Aggs=tla_set(['First', 'Count']), VFs=tla_set(['ident']), LimitNs='{99}')
+SMALL_INNER = consts(MaxKeyLevels=1, MaxItems=2, MaxTotal=2, ItemMax=1, NegItems=1, KFs=tla_set(['mod2']),
+                     Aggs=tla_set(['Sum', 'Flatten', 'Merge']), VFs=tla_set(['ident', 'inner']), LimitNs='{99}')
 SMALL_NESTED = consts(MaxKeyLevels=1, MaxItems=2, MaxTotal=3, ItemMax=1, MaxEvals=2, MaxDepth=2, KFs=tla_set(['mod2']),
                       Aggs=tla_set(['Max', 'Avg', 'Sum']), VFs=tla_set(['ident']), LimitNs='{99, 1}')
 
@@ -637,8 +672,8 @@ def model_level_jobs(tier):
         runs.append(dict(label='historic mechanism %s rejected' % m, module='MC_C16', cfg='MC_C16_full',
                          constants=dict(globals()[uname], Fixes=tla_set(ALL_FIXES), Mutant='"%s"' % m),
                          expect='LawRefGroup', workers=2, heap='2g'))
-    muts = [('carry', SMALL_NESTED), ('avgint', SMALL_NESTED)] if tier == 'quick' else \
-        [('carry', SMALL_NESTED), ('avgint', SMALL), ('limit1', SMALL), ('firstlast', SMALL)]
+    muts = [('carry', SMALL_NESTED), ('avgint', SMALL_NESTED), ('curagg', SMALL_INNER)] if tier == 'quick' else \
+        [('carry', SMALL_NESTED), ('avgint', SMALL), ('limit1', SMALL), ('firstlast', SMALL), ('curagg', SMALL_INNER)]
     for m, universe in muts:
         runs.append(dict(label='mutant %s rejected' % m, module='MC_C16', cfg='MC_C16',
                          constants=dict(universe, Mutant='"%s"' % m), expect='any', workers=2, heap='2g'))
@@ -701,7 +736,8 @@ def main(tier, seed):
         'the result for a bare aggregator / bare value that received no item is not constrained (Python references '
         'of first / max / min / mean are undefined on nothing; glom returns None, also for Sum / Count / Flatten / Merge)',
         'key / value functions come from a fixed library (T, T % 2, t // 2, constant, two SKIP-producing; T, T + 1, '
-        'T * 10, SKIP-producing); items are small ints or id() of dict / list spec nodes; Avg compared as exact rational',
+        'T * 10, SKIP-producing; Sum / Flatten / Merge may take a sub-spec that is itself a Group, over items [t, t + 10]); '
+        'items are small ints (negative ones included) or id() of dict / list spec nodes; Avg compared as exact rational',
         'Sample (random) and Limit below the top level are outside the universe; the key-spec objects of different '
         'levels are distinct objects',
         'TLC, the Json community module and the codec are trusted']
@@ -728,9 +764,9 @@ def replay(path):
     if 'items' in case:
         for sp in (0, 1):
             rs = RealSpec(levels, sp)
-            heap, cells, tgt = make_target(rs, case['items'], 'list', None)
+            heap, cells, tgt = make_target(rs, case['items'], 'list')
             res, obs = observe(rs, lambda: glom.glom(tgt, rs.g))
-            print('spelling %d: glom(%r, %r) -> %r' % (sp, [rs.item(x) for x in case['items']], rs.g, res))
+            print('spelling %d: glom(%r, %r) -> %r' % (sp, [rs.feed(x) for x in case['items']], rs.g, res))
             print('   observed  %s' % json.dumps(obs))
             if 'pred' in case:
                 print('   predicted %s' % json.dumps(case['pred']))
